@@ -121,3 +121,14 @@ Proof.
   - apply N.eqb_eq in H2. subst. tauto.
   - tauto.
 Qed.
+
+(* after the acquisition: the node goes on as primary only of its own cluster *)
+Lemma post_acquire_own_cluster local leaser c : post_acquire local leaser = (true, Some c) ->
+  (leaser = None /\ (local = Some c \/ (local = None /\ c = 0))) \/ (leaser = Some c /\ local = Some c).
+Proof.
+  unfold post_acquire. destruct leaser as [b|]; destruct local as [a|]; cbn; intros H; inversion H; subst; try discriminate; auto.
+  right. match goal with E : (_ =? _) = true |- _ => apply N.eqb_eq in E; subst end. auto.
+Qed.
+Lemma post_acquire_foreign_refused a b : a <> b -> fst (post_acquire (Some a) (Some b)) = false.
+Proof. intros H. cbn. destruct (N.eqb_spec a b); [contradiction|reflexivity]. Qed.
+
